@@ -435,9 +435,11 @@ def hostile_expr(r, depth=0):
         mn = r.choice(["(1 << 63)", "0x8000000000000000", "-0x8000000000000000", "(0 - 0x8000000000000000)", "(~0 << 63)"])
         m1 = r.choice(["-1", "~0", "(0 - 1)", "0xffffffffffffffff"])
         x = r.choice(EXPR_CONSTS[:15] if depth < 0 else EXPR_CONSTS)
-        return r.choice([f"({mn} / {m1})", f"({mn} % {m1})", f"({x} / 0)", f"({x} % 0)", f"({x} << 64)", f"({x} >> 65)",
-                         f"({mn} * {m1})", f"(-{mn})", f"ALIGN({x}, 0)", f"ALIGN({x}, 3)", f"ALIGN({mn}, {mn})",
-                         f"({mn} - 1)", f"(0x7fffffffffffffff + {x})"])
+        forms = [f"({mn} / {m1})", f"({mn} / {m1})", f"({x} / 0)", f"({x} << 64)", f"({x} >> 65)", f"({mn} * {m1})", f"(-{mn})",
+                 f"({mn} - 1)", f"(0x7fffffffffffffff + {x})", f"({x} / {m1})", f"({mn} / {x})"]
+        if depth >= 0:      # forms wild's grammar may not have: only inside larger random expressions
+            forms += [f"({mn} % {m1})", f"({x} % 0)", f"ALIGN({x}, 0)", f"ALIGN({x}, 3)", f"ALIGN({mn}, {mn})"]
+        return r.choice(forms)
     if c < 0.65:
         return f"({hostile_expr(r, depth + 1)} {r.choice(EXPR_OPS)} {hostile_expr(r, depth + 1)})"
     if c < 0.8:
@@ -453,6 +455,9 @@ def mutate_text(r, text, tokens, kind):
     if kind == "linker-script" and r.random() < 0.2:
         # half of them: one directed edge pair on its own (nothing else in the expression that a parser might reject)
         e = hostile_expr(r, depth=-1) if r.random() < 0.5 else hostile_expr(r)
+        # wild evaluates general expressions in ASSERT only (assignments and `. =` take restricted forms)
+        if r.random() < 0.7:
+            return f'ASSERT({e} != 12345, "m")\n', f"text.{kind}:hostile-expression"
         return r.choice([f'ASSERT({e} != 12345, "m")\n', f"sym_x = {e};\n",
                          f"SECTIONS {{ . = {e}; .text : {{ *(.text .text.*) }} }}\n",
                          f"SECTIONS {{ .text : {{ *(.text .text.*) }} . = ALIGN({e}); .data : {{ *(.data) }} }}\n"]), \
